@@ -3,6 +3,7 @@ package sim
 import (
 	"context"
 	"fmt"
+	"net"
 	"runtime/debug"
 	"strconv"
 	"strings"
@@ -12,7 +13,10 @@ import (
 	corev3 "github.com/envoyproxy/go-control-plane/envoy/config/core/v3"
 	envoy "github.com/envoyproxy/go-control-plane/envoy/service/auth/v3"
 	"github.com/lestrrat-go/jwx/v2/jwk"
+	"google.golang.org/grpc"
 	"google.golang.org/grpc/codes"
+	"google.golang.org/grpc/credentials/insecure"
+	"google.golang.org/grpc/test/bufconn"
 
 	configv1 "github.com/istio-ecosystem/authservice/config/gen/go/v1"
 	oidcv1 "github.com/istio-ecosystem/authservice/config/gen/go/v1/oidc"
@@ -80,6 +84,9 @@ type WorldOpts struct {
 	Binary         bool   // run the built service binary (cmd/main.go) as a child process and talk gRPC to it
 	// DiscoveryExplicit (with Discovery): the endpoints are spelled out as well and the keys come from jwks_fetcher
 	DiscoveryExplicit bool
+	// ViaGRPC (with ViaServer, in process): checks travel through the gRPC server the service runs - request-id and
+	// logging interceptors included - over an in-memory listener
+	ViaGRPC bool
 	// RawKeyProvider: the service gets the real key provider itself, not the fault-injecting wrapper around it (the
 	// wrapper hides any further interface the provider implements)
 	RawKeyProvider bool
@@ -101,20 +108,22 @@ type WorldOpts struct {
 
 // World is one simulated deployment.
 type World struct {
-	C       *Case
-	Opts    WorldOpts
-	Cfg     *oidcv1.OIDCConfig
-	IdP     *IdP
-	Clock   *VClock
-	Store   *SpyStore
-	JWKS    *SpyJWKS
-	TLS     internal.TLSConfigPool
-	Gen     oidc.SessionGenerator
-	Filter  *server.ExtAuthZFilter
-	Factory oidc.SessionStoreFactory
-	Full    *configv1.Config
-	Svc     *Service
-	stopIdP func()
+	C         *Case
+	Opts      WorldOpts
+	Cfg       *oidcv1.OIDCConfig
+	IdP       *IdP
+	Clock     *VClock
+	Store     *SpyStore
+	JWKS      *SpyJWKS
+	TLS       internal.TLSConfigPool
+	Gen       oidc.SessionGenerator
+	Filter    *server.ExtAuthZFilter
+	Factory   oidc.SessionStoreFactory
+	Full      *configv1.Config
+	Svc       *Service
+	grpcCheck func(req *envoy.CheckRequest) (*envoy.CheckResponse, error)
+	stopGRPC  func()
+	stopIdP   func()
 	// ExpectLogoutURI is where a logout must redirect to: the configured URI, else the discovered one.
 	ExpectLogoutURI string
 	cancel          context.CancelFunc
@@ -324,6 +333,27 @@ func NewWorld(c *Case, o WorldOpts) *World {
 		fill()
 		startProv()
 	}
+	if o.ViaGRPC && w.Filter != nil {
+		lis := bufconn.Listen(1 << 20)
+		srv := server.New(full, w.Filter.Register)
+		srv.Listen = func() (net.Listener, error) { return lis, nil }
+		if err := srv.PreRun(); err != nil {
+			panic(err)
+		}
+		go func() { _ = srv.Serve() }()
+		conn, err := grpc.NewClient("passthrough:///bufnet", grpc.WithTransportCredentials(insecure.NewCredentials()),
+			grpc.WithContextDialer(func(ctx context.Context, _ string) (net.Conn, error) { return lis.DialContext(ctx) }))
+		if err != nil {
+			panic(err)
+		}
+		client := envoy.NewAuthorizationClient(conn)
+		w.grpcCheck = func(req *envoy.CheckRequest) (*envoy.CheckResponse, error) {
+			ctx, cancel := context.WithTimeout(context.Background(), 30*time.Second)
+			defer cancel()
+			return client.Check(ctx, req)
+		}
+		w.stopGRPC = func() { _ = conn.Close(); srv.GracefulStop() }
+	}
 	return w
 }
 
@@ -346,6 +376,9 @@ func (w *World) SetStaticJWKS() {
 
 // Close releases the world's resources.
 func (w *World) Close() {
+	if w.stopGRPC != nil {
+		w.stopGRPC()
+	}
 	w.cancel()
 	w.IdP.Close()
 	if w.Svc != nil {
@@ -543,6 +576,12 @@ func (w *World) CheckRaw(req *envoy.CheckRequest) (r *Resp) {
 		ctx, cancel := context.WithTimeout(context.Background(), 20*time.Second)
 		defer cancel()
 		resp, err := w.Svc.client.Check(ctx, req)
+		r.Err = err
+		ParseResp(r, resp)
+		return r
+	}
+	if w.grpcCheck != nil {
+		resp, err := w.grpcCheck(req)
 		r.Err = err
 		ParseResp(r, resp)
 		return r
